@@ -71,13 +71,13 @@ func genTokens(g *Rng, tier string) *Plan {
 		life = 3_600_000
 	}
 	p := &Plan{Knobs: mustJSON(k)}
-	steps := []tokStep{{Kind: "login", User: g.Intn(9)}}
+	steps := []tokStep{{Kind: "login", User: g.Intn(11)}}
 	nlogins := 1
 	n := 3 + g.Intn(9)
 	for i := 0; i < n; i++ {
 		switch g.PickW(2, 10, 4, 1) {
 		case 0:
-			steps = append(steps, tokStep{Kind: "login", User: g.Intn(9)})
+			steps = append(steps, tokStep{Kind: "login", User: g.Intn(11)})
 			nlogins++
 		case 1:
 			steps = append(steps, tokStep{Kind: "present", Token: Pick(g, tokKinds...), Login: g.Intn(nlogins), Path: Pick(g, "/page", "/page", "/gated/x", "/nested/x")})
